@@ -1611,6 +1611,82 @@ pub fn index_is_in_bounds(length: usize, checked_index: Option<usize>) -> (r: bo
 }
 //@end
 
+// ================= C09: construction of the ClosestNodes walk (its `next` is outside Verus' subset) =================
+/// stand-in for `type GoodNodes<'a> = Filter<Iter<'a, Node>, fn(&&Node) -> bool>` (a filtered bucket iterator)
+pub struct GoodNodes<'a> { pub p: core::marker::PhantomData<&'a Node> }
+//@begin type src/table.rs - struct ClosestNodes
+pub struct ClosestNodes<'a> {
+    pub buckets: &'a [Bucket],
+    pub current_iter: Option<GoodNodes<'a>>,
+    pub current_index: usize,
+    pub start_index: usize,
+    pub assorted_nodes: Option<[(usize, &'a Node, bool); bucket::MAX_BUCKET_SIZE]>,
+}
+//@end
+pub mod bucket { pub use super::MAX_BUCKET_SIZE; }
+// stand-ins (bodies use Filter / peekable / enumerate)
+#[verifier::external_body]
+pub fn good_node_filter<'a>(iter: core::slice::Iter<'a, Node>) -> GoodNodes<'a> { unimplemented!() }
+/// ABSTRACTION (rule R-abs): the rest of precompute_assorted_nodes after its early return (peekable + enumerate over the last bucket)
+#[verifier::external_body]
+pub fn vx_abs_assorted<'a>(buckets: &'a [Bucket], self_node_id: NodeId) -> Option<[(usize, &'a Node, bool); bucket::MAX_BUCKET_SIZE]> { unimplemented!() }
+
+impl<'a> ClosestNodes<'a> {
+//@begin fn src/table.rs impl:<'a>ClosestNodes<'a> new props=C09
+    pub fn new(buckets: &'a [Bucket], self_node_id: NodeId, other_node_id: NodeId) -> (r: ClosestNodes<'a>)
+        requires 1 <= buckets@.len() <= 160,
+        ensures r.start_index == lbc(self_node_id, other_node_id), // @C09.walk_starts_at_the_bucket_of_the_shared_prefix_length
+            r.current_index == r.start_index, r.buckets@ == buckets@,
+            (r.current_iter is Some) == (r.start_index < sorted_len(buckets@.len() as int)), // @C09.first_bucket_is_the_start_bucket
+            buckets@.len() == 160 ==> r.assorted_nodes is None, // @C09.full_depth_table_has_no_assorted_bucket
+    {
+        let start_index = leading_bit_count(self_node_id, other_node_id);
+
+        let current_iter = bucket_iterator(buckets, start_index);
+        let assorted_nodes = precompute_assorted_nodes(buckets, self_node_id);
+
+        ClosestNodes {
+            buckets,
+            current_iter,
+            current_index: start_index,
+            start_index,
+            assorted_nodes,
+        }
+    }
+//@end
+}
+/// number of buckets that are iterated as sorted buckets: all 160 of a full-depth table, otherwise all but the last (assorted) one
+pub open spec fn sorted_len(n: int) -> int { if n == 160 { 160 } else { n - 1 } }
+
+//@begin fn src/table.rs - precompute_assorted_nodes props=C09
+pub fn precompute_assorted_nodes(
+    buckets: &[Bucket],
+    self_node_id: NodeId,
+) -> (r: Option<[(usize, &Node, bool); bucket::MAX_BUCKET_SIZE]>)
+    ensures buckets@.len() == 160 ==> r is None, // @C09.full_depth_table_has_no_assorted_bucket
+{
+    if buckets.len() == MAX_BUCKETS {
+        return None;
+    }
+    vx_abs_assorted(buckets, self_node_id)
+}
+//@end
+
+//@begin fn src/table.rs - bucket_iterator props=C09
+pub fn bucket_iterator(buckets: &[Bucket], index: usize) -> (r: Option<GoodNodes<'_>>)
+    requires 1 <= buckets@.len() <= 160,
+    ensures (r is Some) == (index < sorted_len(buckets@.len() as int)), // @C09.last_bucket_is_not_iterated_as_sorted_unless_full_depth
+{
+    if buckets.len() == MAX_BUCKETS {
+        buckets
+    } else {
+        &buckets[..(buckets.len() - 1)]
+    }
+    .get(index)
+    .map(|bucket: &Bucket| -> (g: GoodNodes<'_>) { good_node_filter(bucket.nodes.iter()) })
+}
+//@end
+
 // ================= C10: history lemmas over the per-contact transition system =================
 // The transition functions are exactly the postconditions of the code above (f_update with f_good /
 // f_hearsay = Bucket::add_node on a repeat offer; f_remote_request / f_local_request guarded by the
